@@ -64,11 +64,18 @@ fn arrangements<T: Copy + PartialEq>(syms: &[T]) -> Vec<Vec<T>> {
 }
 
 fn versions_str(v: &[NtpVersion]) -> String {
-    v.iter().map(|x| x.as_u8().to_string()).collect::<Vec<_>>().join(",")
+    v.iter()
+        .map(|x| x.as_u8().to_string())
+        .collect::<Vec<_>>()
+        .join(",")
 }
 
 fn parse_versions(s: &str) -> Vec<NtpVersion> {
-    s.split(',').filter(|x| !x.is_empty()).filter_map(|x| x.parse::<u8>().ok()).filter_map(|x| NtpVersion::try_from(x).ok()).collect()
+    s.split(',')
+        .filter(|x| !x.is_empty())
+        .filter_map(|x| x.parse::<u8>().ok())
+        .filter_map(|x| NtpVersion::try_from(x).ok())
+        .collect()
 }
 
 /// Statement-level meaning of the server configuration: the set of next-protocol ids accepted.
@@ -87,7 +94,10 @@ fn accepted_ids(v: &[NtpVersion]) -> Vec<u16> {
 const PVS: [(&str, ProtocolVersion); 4] = [
     ("V4", ProtocolVersion::V4),
     ("V5", ProtocolVersion::V5),
-    ("V4UpgradingToV5", ProtocolVersion::V4UpgradingToV5 { tries_left: 8 }),
+    (
+        "V4UpgradingToV5",
+        ProtocolVersion::V4UpgradingToV5 { tries_left: 8 },
+    ),
     ("UpgradedToV5", ProtocolVersion::UpgradedToV5),
 ];
 
@@ -123,7 +133,11 @@ fn keyset() -> Arc<KeySet> {
 }
 
 fn rt() -> tokio::runtime::Runtime {
-    tokio::runtime::Builder::new_current_thread().enable_time().start_paused(true).build().expect("runtime")
+    tokio::runtime::Builder::new_current_thread()
+        .enable_time()
+        .start_paused(true)
+        .build()
+        .expect("runtime")
 }
 
 const HANG: std::time::Duration = std::time::Duration::from_secs(3600);
@@ -136,7 +150,11 @@ struct Decoded {
 
 fn decode(ks: &KeySet, cookie: &[u8]) -> Option<Decoded> {
     let d = ks.decode_cookie(cookie).ok()?;
-    Some(Decoded { alg: rig::aead_id(d.algorithm), c2s: d.c2s.key_bytes().to_vec(), s2c: d.s2c.key_bytes().to_vec() })
+    Some(Decoded {
+        alg: rig::aead_id(d.algorithm),
+        c2s: d.c2s.key_bytes().to_vec(),
+        s2c: d.s2c.key_bytes().to_vec(),
+    })
 }
 
 fn alg_of_keylen(n: usize) -> u16 {
@@ -151,7 +169,9 @@ fn alg_of_keylen(n: usize) -> u16 {
 
 fn run_a(ctx: &Ctx, rt: &tokio::runtime::Runtime, pvname: &str, versions: &[NtpVersion]) -> String {
     let trace = format!("A;{pvname};{}", versions_str(versions));
-    let Some(pv) = pv_by_name(pvname) else { return "bad trace".into() };
+    let Some(pv) = pv_by_name(pvname) else {
+        return "bad trace".into();
+    };
     let ks = keyset();
     let r = common::catch(|| {
         rt.block_on(async {
@@ -175,14 +195,21 @@ fn run_a(ctx: &Ctx, rt: &tokio::runtime::Runtime, pvname: &str, versions: &[NtpV
         }
     };
     let Ok((cres, sres)) = both else {
-        ctx.violation("C28:hang", "client and server both idle for an hour of virtual time", trace);
+        ctx.violation(
+            "C28:hang",
+            "client and server both idle for an hour of virtual time",
+            trace,
+        );
         return "hang".into();
     };
     let want_offer = offer_of(pvname);
     if offered.0 != want_offer || offered.1 != vec![A512, A256] {
         ctx.violation(
             "C28:client-offer-unexpected",
-            format!("client configured {pvname} offers protocols {:04x?} algorithms {:?}", offered.0, offered.1),
+            format!(
+                "client configured {pvname} offers protocols {:04x?} algorithms {:?}",
+                offered.0, offered.1
+            ),
             trace.clone(),
         );
     }
@@ -206,7 +233,11 @@ fn run_a(ctx: &Ctx, rt: &tokio::runtime::Runtime, pvname: &str, versions: &[NtpV
         (None, Err(e)) => {
             ctx.inc("a_no_common_protocol");
             if sres.is_ok() {
-                ctx.violation("C28:server-ok-without-overlap", "server reports success without a common protocol", trace);
+                ctx.violation(
+                    "C28:server-ok-without-overlap",
+                    "server reports success without a common protocol",
+                    trace,
+                );
             }
             format!("client=Err({}) server={sdesc}", rig::err_name(&e))
         }
@@ -233,12 +264,20 @@ fn run_a(ctx: &Ctx, rt: &tokio::runtime::Runtime, pvname: &str, versions: &[NtpV
             if got_a != want_a || s2c.len() != c2s.len() {
                 ctx.violation(
                     "C28:wrong-algorithm-selected",
-                    format!("client list [17,15]: first supported is 17, negotiated key lengths {}/{}", c2s.len(), s2c.len()),
+                    format!(
+                        "client list [17,15]: first supported is 17, negotiated key lengths {}/{}",
+                        c2s.len(),
+                        s2c.len()
+                    ),
                     trace.clone(),
                 );
             }
             if c2s == s2c {
-                ctx.violation("C28:keys-not-directional", "c2s key equals s2c key", trace.clone());
+                ctx.violation(
+                    "C28:keys-not-directional",
+                    "c2s key equals s2c key",
+                    trace.clone(),
+                );
             }
             let mut n = 0;
             let mut ok = 0;
@@ -255,15 +294,30 @@ fn run_a(ctx: &Ctx, rt: &tokio::runtime::Runtime, pvname: &str, versions: &[NtpV
                 }
             }
             if n != 8 {
-                ctx.violation("C28:cookie-count", format!("client holds {n} cookies, expected 8"), trace.clone());
+                ctx.violation(
+                    "C28:cookie-count",
+                    format!("client holds {n} cookies, expected 8"),
+                    trace.clone(),
+                );
             }
             if sres.is_err() {
-                ctx.violation("C28:server-error-on-success", format!("server returned {sdesc} for a successful exchange"), trace.clone());
+                ctx.violation(
+                    "C28:server-error-on-success",
+                    format!("server returned {sdesc} for a successful exchange"),
+                    trace.clone(),
+                );
             }
             ctx.add("cookies_decoded", ok);
-            ctx.inc(if got_p == P4 { "a_negotiated_v4" } else { "a_negotiated_v5" });
+            ctx.inc(if got_p == P4 {
+                "a_negotiated_v4"
+            } else {
+                "a_negotiated_v5"
+            });
             ctx.distinct(common::hash_of(&("A", pvname, versions_str(versions))));
-            format!("client=Ok({:?},alg={got_a},cookies={n},decoded_equal={ok}) server={sdesc}", res.protocol_version)
+            format!(
+                "client=Ok({:?},alg={got_a},cookies={n},decoded_equal={ok}) server={sdesc}",
+                res.protocol_version
+            )
         }
     }
 }
@@ -274,7 +328,11 @@ fn ke_request(protos: &[u16], algs: &[u16], aead_first: bool) -> Vec<u8> {
     let p = Rec::new(0x8001, &rig::u16s_body(protos));
     let a = Rec::new(0x8004, &rig::u16s_body(algs));
     let eom = Rec::new(0x8000, &[]);
-    if aead_first { rig::enc(&[a, p, eom]) } else { rig::enc(&[p, a, eom]) }
+    if aead_first {
+        rig::enc(&[a, p, eom])
+    } else {
+        rig::enc(&[p, a, eom])
+    }
 }
 
 fn run_b(
@@ -291,8 +349,13 @@ fn run_b(
         rt.block_on(async {
             let (c, s) = tokio::io::duplex(4096);
             let cf = async {
-                let mut tls = connector.connect(rig::localhost(), c).await.map_err(|e| format!("connect: {e}"))?;
-                tls.write_all(request).await.map_err(|e| format!("write: {e}"))?;
+                let mut tls = connector
+                    .connect(rig::localhost(), c)
+                    .await
+                    .map_err(|e| format!("connect: {e}"))?;
+                tls.write_all(request)
+                    .await
+                    .map_err(|e| format!("write: {e}"))?;
                 tls.flush().await.map_err(|e| format!("flush: {e}"))?;
                 let mut resp = Vec::new();
                 let clean = tls.read_to_end(&mut resp).await.is_ok();
@@ -312,7 +375,11 @@ fn run_b(
         }
     };
     let Ok((cres, sres)) = both else {
-        ctx.violation("C28:hang", "server idle for an hour of virtual time with the request delivered", trace);
+        ctx.violation(
+            "C28:hang",
+            "server idle for an hour of virtual time with the request delivered",
+            trace,
+        );
         return "hang".into();
     };
     let (tls, resp, clean) = match cres {
@@ -329,19 +396,42 @@ fn run_b(
     };
     // what was asked, from the request bytes themselves
     let req = rig::dec(request).unwrap_or_default();
-    let protos = req.iter().find(|r| r.kind() == 1).and_then(|r| r.u16s()).unwrap_or_default();
-    let algs = req.iter().find(|r| r.kind() == 4).and_then(|r| r.u16s()).unwrap_or_default();
+    let protos = req
+        .iter()
+        .find(|r| r.kind() == 1)
+        .and_then(|r| r.u16s())
+        .unwrap_or_default();
+    let algs = req
+        .iter()
+        .find(|r| r.kind() == 4)
+        .and_then(|r| r.u16s())
+        .unwrap_or_default();
     let acc = accepted_ids(versions);
     let want_p = protos.iter().copied().find(|p| acc.contains(p));
     let want_a = algs.iter().copied().find(|a| *a == A256 || *a == A512);
 
     let Some(recs) = rig::dec(&resp) else {
-        ctx.violation("C28:response-framing", format!("response is not a whole number of records: {}", common::hex(&resp)), trace);
+        ctx.violation(
+            "C28:response-framing",
+            format!(
+                "response is not a whole number of records: {}",
+                common::hex(&resp)
+            ),
+            trace,
+        );
         return "bad framing".into();
     };
     let cookies: Vec<&Rec> = recs.iter().filter(|r| r.kind() == 5).collect();
-    let rp: Vec<Vec<u16>> = recs.iter().filter(|r| r.kind() == 1).filter_map(|r| r.u16s()).collect();
-    let ra: Vec<Vec<u16>> = recs.iter().filter(|r| r.kind() == 4).filter_map(|r| r.u16s()).collect();
+    let rp: Vec<Vec<u16>> = recs
+        .iter()
+        .filter(|r| r.kind() == 1)
+        .filter_map(|r| r.u16s())
+        .collect();
+    let ra: Vec<Vec<u16>> = recs
+        .iter()
+        .filter(|r| r.kind() == 4)
+        .filter_map(|r| r.u16s())
+        .collect();
     let errors = recs.iter().filter(|r| r.kind() == 2).count();
     let obs;
     match (want_p, want_a) {
@@ -361,10 +451,18 @@ fn run_b(
                 );
             }
             if cookies.len() != 8 {
-                ctx.violation("C28:cookie-count", format!("{} cookies issued, expected 8", cookies.len()), trace.clone());
+                ctx.violation(
+                    "C28:cookie-count",
+                    format!("{} cookies issued, expected 8", cookies.len()),
+                    trace.clone(),
+                );
             }
             if errors != 0 || sres.is_err() || !clean {
-                ctx.violation("C28:server-error-on-success", format!("server result {sdesc}, {errors} error records, clean close {clean}"), trace.clone());
+                ctx.violation(
+                    "C28:server-error-on-success",
+                    format!("server result {sdesc}, {errors} error records, clean close {clean}"),
+                    trace.clone(),
+                );
             }
             let exported = rig::export(tls.get_ref().1, p, a);
             let mut ok = 0u64;
@@ -381,9 +479,13 @@ fn run_b(
                                     for aa in [A256, A512] {
                                         if let Some((x, y)) = rig::export(tls.get_ref().1, pp, aa) {
                                             if x == d.c2s && y == d.s2c {
-                                                which = format!("the export for protocol {pp:#06x} algorithm {aa}");
+                                                which = format!(
+                                                    "the export for protocol {pp:#06x} algorithm {aa}"
+                                                );
                                             } else if y == d.c2s && x == d.s2c {
-                                                which = format!("the export for protocol {pp:#06x} algorithm {aa} with c2s/s2c swapped");
+                                                which = format!(
+                                                    "the export for protocol {pp:#06x} algorithm {aa} with c2s/s2c swapped"
+                                                );
                                             }
                                         }
                                     }
@@ -394,15 +496,28 @@ fn run_b(
                                     trace.clone(),
                                 );
                             }
-                            None => ctx.violation("C28:cookie-undecodable", format!("cookie {i} does not decode under the server key set"), trace.clone()),
+                            None => ctx.violation(
+                                "C28:cookie-undecodable",
+                                format!("cookie {i} does not decode under the server key set"),
+                                trace.clone(),
+                            ),
                         }
                     }
                 }
             }
-            let distinct: std::collections::BTreeSet<&Vec<u8>> = cookies.iter().map(|c| &c.body).collect();
+            let distinct: std::collections::BTreeSet<&Vec<u8>> =
+                cookies.iter().map(|c| &c.body).collect();
             ctx.add("cookies_decoded", ok);
-            ctx.inc(if p == P4 { "b_selected_v4" } else { "b_selected_v5" });
-            ctx.inc(if a == A256 { "b_selected_siv256" } else { "b_selected_siv512" });
+            ctx.inc(if p == P4 {
+                "b_selected_v4"
+            } else {
+                "b_selected_v5"
+            });
+            ctx.inc(if a == A256 {
+                "b_selected_siv256"
+            } else {
+                "b_selected_siv512"
+            });
             if protos.first() != Some(&p) {
                 ctx.inc("b_selected_protocol_not_first_in_list");
             }
@@ -410,7 +525,11 @@ fn run_b(
                 ctx.inc("b_selected_algorithm_not_first_in_list");
             }
             ctx.distinct(common::hash_of(&("B", versions_str(versions), request)));
-            obs = format!("select p={p:#06x} a={a}: response p={rp:04x?} a={ra:?} cookies={} distinct={} decoded_equal_export={ok} server={sdesc}", cookies.len(), distinct.len());
+            obs = format!(
+                "select p={p:#06x} a={a}: response p={rp:04x?} a={ra:?} cookies={} distinct={} decoded_equal_export={ok} server={sdesc}",
+                cookies.len(),
+                distinct.len()
+            );
         }
         _ => {
             // no common protocol or no common algorithm: nothing may be issued
@@ -421,17 +540,35 @@ fn run_b(
                     trace.clone(),
                 );
             }
-            if rp.iter().any(|l| l.iter().any(|p| !protos.contains(p) || !acc.contains(p))) {
+            if rp
+                .iter()
+                .any(|l| l.iter().any(|p| !protos.contains(p) || !acc.contains(p)))
+            {
                 ctx.violation("C28:wrong-protocol-selected", format!("response names protocol {rp:04x?} not common to {protos:04x?} and {acc:04x?}"), trace.clone());
             }
             if ra.iter().any(|l| !l.is_empty()) && want_a.is_none() {
-                ctx.violation("C28:wrong-algorithm-selected", format!("response names algorithm {ra:?}, client offered {algs:?}"), trace.clone());
+                ctx.violation(
+                    "C28:wrong-algorithm-selected",
+                    format!("response names algorithm {ra:?}, client offered {algs:?}"),
+                    trace.clone(),
+                );
             }
             if sres.is_ok() {
-                ctx.violation("C28:server-ok-without-overlap", "server reports success without common parameters", trace.clone());
+                ctx.violation(
+                    "C28:server-ok-without-overlap",
+                    "server reports success without common parameters",
+                    trace.clone(),
+                );
             }
-            ctx.inc(if want_p.is_none() { "b_no_common_protocol" } else { "b_no_common_algorithm" });
-            obs = format!("no overlap (p={want_p:04x?} a={want_a:?}): response p={rp:04x?} a={ra:?} cookies={} errors={errors} server={sdesc}", cookies.len());
+            ctx.inc(if want_p.is_none() {
+                "b_no_common_protocol"
+            } else {
+                "b_no_common_algorithm"
+            });
+            obs = format!(
+                "no overlap (p={want_p:04x?} a={want_a:?}): response p={rp:04x?} a={ra:?} cookies={} errors={errors} server={sdesc}",
+                cookies.len()
+            );
         }
     }
     obs
@@ -477,16 +614,25 @@ fn run_c(
     response: &[u8],
 ) -> String {
     let trace = format!("C;{pvname};{}", common::hex(response));
-    let Some(pv) = pv_by_name(pvname) else { return "bad trace".into() };
+    let Some(pv) = pv_by_name(pvname) else {
+        return "bad trace".into();
+    };
     let r = common::catch(|| {
         rt.block_on(async {
             let client = rig::client(pv);
             let (c, s) = tokio::io::duplex(4096);
             let cf = client.exchange_keys(c, "localhost".into(), Vec::<Cow<'static, str>>::new());
             let sf = async {
-                let mut tls = acceptor.accept(s).await.map_err(|e| format!("accept: {e}"))?;
-                let req = rig::read_message(&mut tls).await.map_err(|(_, e)| format!("request: {e}"))?;
-                tls.write_all(response).await.map_err(|e| format!("write: {e}"))?;
+                let mut tls = acceptor
+                    .accept(s)
+                    .await
+                    .map_err(|e| format!("accept: {e}"))?;
+                let req = rig::read_message(&mut tls)
+                    .await
+                    .map_err(|(_, e)| format!("request: {e}"))?;
+                tls.write_all(response)
+                    .await
+                    .map_err(|e| format!("write: {e}"))?;
                 tls.flush().await.map_err(|e| format!("flush: {e}"))?;
                 let _ = tls.shutdown().await;
                 Ok::<_, String>((tls, req))
@@ -504,7 +650,11 @@ fn run_c(
         }
     };
     let Ok((cres, sres)) = both else {
-        ctx.violation("C28:hang", "client idle for an hour of virtual time with the response delivered", trace);
+        ctx.violation(
+            "C28:hang",
+            "client idle for an hour of virtual time with the response delivered",
+            trace,
+        );
         return "hang".into();
     };
     let (tls, req) = match sres {
@@ -515,16 +665,41 @@ fn run_c(
         }
     };
     // the offer as it went over the wire
-    let off_p = req.iter().find(|r| r.kind() == 1).and_then(|r| r.u16s()).unwrap_or_default();
-    let off_a = req.iter().find(|r| r.kind() == 4).and_then(|r| r.u16s()).unwrap_or_default();
+    let off_p = req
+        .iter()
+        .find(|r| r.kind() == 1)
+        .and_then(|r| r.u16s())
+        .unwrap_or_default();
+    let off_a = req
+        .iter()
+        .find(|r| r.kind() == 4)
+        .and_then(|r| r.u16s())
+        .unwrap_or_default();
     if off_p != offer_of(pvname) {
-        ctx.violation("C28:client-offer-unexpected", format!("client configured {pvname} sent next-protocol list {off_p:04x?}"), trace.clone());
+        ctx.violation(
+            "C28:client-offer-unexpected",
+            format!("client configured {pvname} sent next-protocol list {off_p:04x?}"),
+            trace.clone(),
+        );
     }
     let recs = rig::dec(response).unwrap_or_default();
-    let rp: Vec<u16> = recs.iter().find(|r| r.kind() == 1).and_then(|r| r.u16s()).unwrap_or_default();
-    let ra: Vec<u16> = recs.iter().find(|r| r.kind() == 4).and_then(|r| r.u16s()).unwrap_or_default();
+    let rp: Vec<u16> = recs
+        .iter()
+        .find(|r| r.kind() == 1)
+        .and_then(|r| r.u16s())
+        .unwrap_or_default();
+    let ra: Vec<u16> = recs
+        .iter()
+        .find(|r| r.kind() == 4)
+        .and_then(|r| r.u16s())
+        .unwrap_or_default();
     let ncookies = recs.iter().filter(|r| r.kind() == 5).count();
-    let valid = rp.len() == 1 && ra.len() == 1 && off_p.contains(&rp[0]) && off_a.contains(&ra[0]) && (ra[0] == A256 || ra[0] == A512) && ncookies >= 1;
+    let valid = rp.len() == 1
+        && ra.len() == 1
+        && off_p.contains(&rp[0])
+        && off_a.contains(&ra[0])
+        && (ra[0] == A256 || ra[0] == A512)
+        && ncookies >= 1;
     match cres {
         Ok(res) => {
             ctx.inc("c_client_accepts");
@@ -558,7 +733,9 @@ fn run_c(
                 );
             }
             match rig::export(tls.get_ref().1, p, a) {
-                Some((x, y)) if x == c2s && y == s2c => ctx.inc("c_client_keys_equal_server_export"),
+                Some((x, y)) if x == c2s && y == s2c => {
+                    ctx.inc("c_client_keys_equal_server_export")
+                }
                 _ => {
                     bad = true;
                     ctx.violation(
@@ -570,12 +747,19 @@ fn run_c(
             }
             if ncookies == 0 {
                 bad = true;
-                ctx.violation("C28:client-accepts-without-cookies", "client returned Ok for a response without cookies", trace.clone());
+                ctx.violation(
+                    "C28:client-accepts-without-cookies",
+                    "client returned Ok for a response without cookies",
+                    trace.clone(),
+                );
             }
             if !bad {
                 ctx.distinct(common::hash_of(&("C", pvname, response)));
             }
-            format!("offered p={off_p:04x?} a={off_a:?}; response p={rp:04x?} a={ra:?} cookies={ncookies}; client=Ok({:?},alg={a})", res.protocol_version)
+            format!(
+                "offered p={off_p:04x?} a={off_a:?}; response p={rp:04x?} a={ra:?} cookies={ncookies}; client=Ok({:?},alg={a})",
+                res.protocol_version
+            )
         }
         Err(e) => {
             ctx.inc("c_client_rejects");
@@ -588,7 +772,10 @@ fn run_c(
             } else {
                 ctx.distinct(common::hash_of(&("C", pvname, response)));
             }
-            format!("offered p={off_p:04x?} a={off_a:?}; response p={rp:04x?} a={ra:?} cookies={ncookies}; client=Err({})", rig::err_name(&e))
+            format!(
+                "offered p={off_p:04x?} a={off_a:?}; response p={rp:04x?} a={ra:?} cookies={ncookies}; client=Err({})",
+                rig::err_name(&e)
+            )
         }
     }
 }
@@ -602,13 +789,17 @@ fn replay(ctx: &Ctx, trace: &str) -> String {
         ["A", pv, versions] => run_a(ctx, &rt, pv, &parse_versions(versions)),
         ["B", versions, hexreq] => {
             let versions = parse_versions(versions);
-            let Some(req) = common::unhex(hexreq) else { return "bad hex".into() };
+            let Some(req) = common::unhex(hexreq) else {
+                return "bad hex".into();
+            };
             let kex = rig::server(versions.clone(), vec![]);
             let ks = keyset();
             run_b(ctx, &rt, &rig::raw_connector(), &kex, &ks, &versions, &req)
         }
         ["C", pv, hexresp] => {
-            let Some(resp) = common::unhex(hexresp) else { return "bad hex".into() };
+            let Some(resp) = common::unhex(hexresp) else {
+                return "bad hex".into();
+            };
             run_c(ctx, &rt, &rig::raw_acceptor(), pv, &resp)
         }
         _ => "unknown trace".into(),
@@ -636,27 +827,42 @@ fn check() {
     );
     ctx.assume("the TLS exporter (rustls) yields the same bytes at both ends of a session; the harness' own RFC 8915 context construction (protocol id BE || AEAD id BE || 0/1) is the meaning of 'the keys exported for that protocol and algorithm'");
     ctx.assume("KeySet::decode_cookie is the meaning of 'cookie decodes under the server key set' (its own properties are C26/C27)");
-    ctx.assume("test-keys/ certificates are valid and verifiable offline, as in the crate's own KE tests");
+    ctx.assume(
+        "test-keys/ certificates are valid and verifiable offline, as in the crate's own KE tests",
+    );
     ctx.assume("the server supports exactly AEAD 15 (SIV-CMAC-256) and 17 (SIV-CMAC-512); the client's adopted algorithm is observed through its key length (32 / 64 bytes)");
 
     let server_lists = arrangements(&[NtpVersion::V3, NtpVersion::V4, NtpVersion::V5]);
 
     // ---- A
-    let cases_a: Vec<(usize, usize)> = (0..PVS.len()).flat_map(|p| (0..server_lists.len()).map(move |s| (p, s))).collect();
+    let cases_a: Vec<(usize, usize)> = (0..PVS.len())
+        .flat_map(|p| (0..server_lists.len()).map(move |s| (p, s)))
+        .collect();
     common::par_for_with(cases_a.len() as u64, 1, rt, |rt, i| {
         let (p, s) = cases_a[i as usize];
         let obs = run_a(&ctx, rt, PVS[p].0, &server_lists[s]);
         ctx.inc("evaluations");
         if i % 13 == 5 {
-            ctx.sample(format!("A client {} vs server [{}]: {obs}", PVS[p].0, versions_str(&server_lists[s])));
+            ctx.sample(format!(
+                "A client {} vs server [{}]: {obs}",
+                PVS[p].0,
+                versions_str(&server_lists[s])
+            ));
         }
     });
 
     // ---- B
-    let (psyms, asyms): (&[u16], &[u16]) = if quick { (&[P4, P5, PU], &[A256, A512, AU]) } else { (&[P4, P5, PU, PU2], &[A256, A512, AU, AU2]) };
+    let (psyms, asyms): (&[u16], &[u16]) = if quick {
+        (&[P4, P5, PU], &[A256, A512, AU])
+    } else {
+        (&[P4, P5, PU, PU2], &[A256, A512, AU, AU2])
+    };
     let plists = arrangements(psyms);
     let alists = arrangements(asyms);
-    let servers: Vec<KeyExchangeServer> = server_lists.iter().map(|v| rig::server(v.clone(), vec![])).collect();
+    let servers: Vec<KeyExchangeServer> = server_lists
+        .iter()
+        .map(|v| rig::server(v.clone(), vec![]))
+        .collect();
     let ks = keyset();
     let connector = rig::raw_connector();
     let nb = (server_lists.len() * plists.len() * alists.len() * 2) as u64;
@@ -672,10 +878,23 @@ fn check() {
         x /= plists.len();
         let si = x;
         let req = ke_request(&plists[pi], &alists[ai], order == 1);
-        let obs = run_b(&ctx, rt, &connector, &servers[si], &ks, &server_lists[si], &req);
+        let obs = run_b(
+            &ctx,
+            rt,
+            &connector,
+            &servers[si],
+            &ks,
+            &server_lists[si],
+            &req,
+        );
         ctx.inc("evaluations");
         if i % 1499 == 77 {
-            ctx.sample(format!("B server [{}] request p={:04x?} a={:?}: {obs}", versions_str(&server_lists[si]), plists[pi], alists[ai]));
+            ctx.sample(format!(
+                "B server [{}] request p={:04x?} a={:?}: {obs}",
+                versions_str(&server_lists[si]),
+                plists[pi],
+                alists[ai]
+            ));
         }
     });
 
